@@ -128,6 +128,60 @@ def uri_of(n, i, nonascii=False):
     return base + "x" * max(0, n - len(base)) if n > len(base) else ("abcdefgh"[i] * n if n else "")
 
 
+def _mini_env(seq, members):
+    import hashlib
+    man = mcbor.enc({1: 1, 2: seq, 3: mcbor.enc({})})
+    auth = mcbor.enc([mcbor.enc([-16, hashlib.sha256(mcbor.enc(man)).digest()])])
+    return mcbor.enc(mcbor.Tag(107, mcbor.Pairs([(2, auth), (3, man)] + list(members))))
+
+
+def envelope_duplicates(rec, r, wd, eb, full):
+    """from_envelope over a hierarchy in which TWO dependency envelopes (siblings, or cousins one level further down)
+    integrate the same URI with different contents: either the command refuses, or both contents survive somewhere
+    (cache or output envelope) - one of them silently replacing the other is the 'silently overwritten' of the property"""
+    a, b = r.randbytes(24), r.randbytes(24)
+    shape = r.choice(["siblings", "cousins", "siblings-and-unique"])
+    uri = r.choice(["#dup", "#fw.bin", "file://x/y.bin"])
+    ca, cb = _mini_env(2, [(uri, a)]), _mini_env(3, [(uri, b)])
+    if shape == "cousins":
+        ca, cb = _mini_env(4, [("#dep_x", ca)]), _mini_env(5, [("#dep_y", cb)])
+    members = [("#dep_a", ca), ("#dep_b", cb)]
+    if shape == "siblings-and-unique":
+        members.append(("#own", r.randbytes(9)))
+    root = _mini_env(9, members)
+    src, oc, oe = drive.fresh(wd, ".suit"), drive.fresh_out(wd, ".cache"), drive.fresh_out(wd, ".suit")
+    with open(src, "wb") as fh:
+        fh.write(root)
+    exc = None
+    try:
+        from suit_generator import cmd_cache_create
+        cmd_cache_create.main(cache_create_subcommand="from_envelope", output_file=oc, eb_size=eb, input=None,
+                              input_envelope=src, output_envelope=oe, omit_payload_regex=None,
+                              dependency_regex="#dep_.*")
+    except Exception as e:  # noqa
+        exc = e
+    rec.count("file:from_envelope-same-uri-in-two-dependencies:" + shape)
+    rec.case(root + shape.encode(), True)
+    try:
+        if exc is not None:
+            rec.count("file:from_envelope-same-uri-refused")
+            return
+        got = b""
+        for p in (oc, oe):
+            if drive.written(p):
+                with open(p, "rb") as fh:
+                    got += fh.read()
+        lost = [x.hex() for x in (a, b) if x not in got]
+        if lost:
+            rec.violation("cache-duplicate-uri-accepted", f"from_envelope: {uri!r} is integrated by two dependency "
+                          f"envelopes ({shape}); the command succeeded and the content {lost} is neither in the cache "
+                          "nor in the output envelope", dict(full, shape=shape))
+    finally:
+        for p in (src, oc, oe):
+            if os.path.exists(p):
+                os.unlink(p)
+
+
 def lib_build(eb, slots):
     """CachePartition class (the object every file route uses) -> bytes or exception"""
     from suit_generator.cmd_cache_create import CachePartition
@@ -284,6 +338,9 @@ def file_case(rec, n):
     rec.count("file:" + kind)
     rec.count("file-route:" + route)
     full = {"kind": "file", "n": n, "seed": rec.seed}
+    import random as _random
+    if _random.Random(f"envdup/{rec.seed}/{n}").random() < 0.12:
+        envelope_duplicates(rec, _random.Random(f"envdup2/{rec.seed}/{n}"), wd, eb, full)
     try:
         if kind in ("from_payloads", "duplicate-uri"):
             slots = slots_for("p", r.randrange(1, 6))
